@@ -2575,7 +2575,27 @@ func (e *Env) RAddsEveryMissing() {
 		}
 		// (2) the queue reaches the block whenever it is not empty
 		cond, okc := pathCond(c, fd.Body.List, as)
-		reached, dec := unsatWith("r.Resolver != nil && len("+q+") > 0", schema.NegGuard("("+orTrue(cond)+")"))
+		// (conjuncts `err == nil` for an error variable come from earlier error returns: the
+		// restore has failed there and nothing is appended anywhere)
+		premise := "r.Resolver != nil && len(" + q + ") > 0"
+		for _, cj := range splitTopAnd(orTrue(cond)) {
+			cj = strings.TrimSpace(cj)
+			if name := strings.TrimSuffix(cj, " == nil"); name != cj && token.IsIdentifier(name) {
+				isErr := false
+				ast.Inspect(fd.Body, func(m ast.Node) bool {
+					if id, ok := m.(*ast.Ident); ok && id.Name == name {
+						if v, ok := info.ObjectOf(id).(*types.Var); ok && types.Identical(v.Type(), types.Universe.Lookup("error").Type()) {
+							isErr = true
+						}
+					}
+					return !isErr
+				})
+				if isErr {
+					premise += " && " + cj
+				}
+			}
+		}
+		reached, dec := unsatWith(premise, schema.NegGuard("("+orTrue(cond)+")"))
 		if !okc || !dec {
 			e.Run.Undecided("R-ADD", key, e.Prog.Pos(as.Pos()), "condition not propositional: "+cond)
 			return true
